@@ -16,6 +16,7 @@ import (
 
 	"github.com/theparanoids/ysshra/csr"
 	"github.com/theparanoids/ysshra/internal/zzverif/ev"
+	"github.com/theparanoids/ysshra/message"
 	"github.com/theparanoids/ysshra/sshutils/version"
 	"github.com/theparanoids/ysshra/zzverifrt/vrand"
 )
@@ -38,9 +39,9 @@ var (
 func c14Declared(cmd string) (isJSONObj bool, user, host, ver string, legacyOK bool) {
 	var probe map[string]json.RawMessage
 	if json.Unmarshal([]byte(cmd), &probe) == nil && probe != nil {
-		var f struct {
-			Username, Hostname, SSHClientVersion string
-		}
+		// "a JSON attribute object" = the whole object decodes into the attribute type (a mistyped member anywhere makes
+		// it something else, which may still be legacy text)
+		var f message.Attributes
 		if json.Unmarshal([]byte(cmd), &f) == nil {
 			return true, f.Username, f.Hostname, f.SSHClientVersion, false
 		}
@@ -214,6 +215,11 @@ func c14Commands() []string {
 		`{"username":"u","hostname":"h","sshClientVersion":"8.1","exts":{"a":{"b":[1,{"c":null}]}}}`, `{"username":"u","hostname":"h","sshClientVersion":"8.1","touchlessSudo":null}`,
 		`{"username":"u","hostname":"h","sshClientVersion":"8.1","signatureAlgo":99,"caPubKeyAlgo":-1}`, `{"username":"u","hostname":"h","sshClientVersion":"8.1"} trailing`,
 		`{"x":"IFVer=6 req=u@h y"}`, `{"username":"u","hostname":"h","sshClientVersion":"8.1"`,
+		// JSON refused for a TYPE error only, accepted as legacy text through a req= token inside a string value: the
+		// declared version is the legacy one (absent = 0.0), never a member of the refused JSON
+		`{"sshClientVersion":"9.9","signatureAlgo":4,"exts":{"note":" req=alice@laptop "},"hardKey":"yes"}`,
+		`{"username":"mallory","hostname":"evil","sshClientVersion":"9.9","k":" req=u@h ","hardKey":1}`,
+		`{"sshClientVersion":"9.9","k":" req=u@h SSHClientVersion=7.0 ","ifVer":"7"}`,
 		"IFVer=6 SSHClientVersion=8.1 req=user@host.com HardKey=true", "IFVer=6 req=user@host.com", "req=user@host.com", "SSHClientVersion=8.1 req=user@host.com",
 		"SSHClientVersion=x req=user@host.com", "SSHClientVersion=8 req=u@h", "SSHClientVersion=70000.1 req=u@h", "SSHClientVersion= req=u@h", "IFVer=6 SSHClientVersion=8.1",
 		"req=user", "req=a@b@c", "req=@", "req=@h", "req=u@", "req", "req=u@h req=v@g", "  req=u@h  ", "\treq=u@h", "IFVer=six req=u@h", "a=b=c req=u@h =v", "", " ", "\x00", "\xff\xfe req=u@h",
@@ -223,7 +229,7 @@ func c14Commands() []string {
 }
 
 func checkC14(c *ev.Ctx) {
-	c.Rule("SSH_ORIGINAL_COMMAND from a 60-text catalogue (JSON objects with good/missing/mistyped fields and 8 version spellings, other JSON values, legacy k=v texts, empty, raw bytes) x LOGNAME{5} x SSH_CONNECTION{11} x argument vectors: part A (serial, CSPRNG identity checked) all commands x lognames x connections x 8 vectors; part B all vectors of 0..4 arguments over a 9-token alphabet (incl. space-containing arguments that end in a policy token) (thorough: 0..8 over 4 tokens as well) x reduced command/logname/connection sets; each compared with a reference model written from the statement. non-trivial = accepted input; distinct by input")
+	c.Rule("SSH_ORIGINAL_COMMAND from a 63-text catalogue (JSON objects with good/missing/mistyped fields and 8 version spellings, other JSON values, legacy k=v texts, empty, raw bytes) x LOGNAME{5} x SSH_CONNECTION{11} x argument vectors: part A (serial, CSPRNG identity checked) all commands x lognames x connections x 8 vectors; part B all vectors of 0..4 arguments over a 9-token alphabet (incl. space-containing arguments that end in a policy token) (thorough: 0..8 over 4 tokens as well) x reduced command/logname/connection sets; each compared with a reference model written from the statement. non-trivial = accepted input; distinct by input")
 	c.Assume("transid bytes come through the csprng seam (crypto/rand import of csr/transid redirected to a recording deterministic stream)")
 	if c.ReplayCase != nil {
 		var k c14Case
